@@ -13,6 +13,9 @@ import (
 
 func init() {
 	register(&PropertyCheck{ID: "C12", Level: "other", Run: checkC12, Canaries: []Canary{
+		{Name: "set-password-wipes-the-previous-slice-in-place", Rule: "R12.4", Where: "SetPassword", Edits: []Edit{{"connect.go", "func (p *Connect) SetPassword(v []byte) {", "func (p *Connect) SetPassword(v []byte) {\n\t// do not leave the previous secret behind in memory\n\tfor i := range p.password {\n\t\tp.password[i] = 0\n\t}"}}},
+		{Name: "adder-drops-duplicates", Rule: "R12.5", Where: "AddSubscriptionID", Edits: []Edit{{"publish.go", "func (p *Publish) AddSubscriptionID(v uint32) {\n\tp.subscriptionIDs = append(p.subscriptionIDs, v)\n}\n\nfunc (p *Publish) SubscriptionIDs() []uint32 {\n\treturn p.subscriptionIDs\n}\n\n// The value of the Content Type is defined by the sending and\n// receiving application, e.g. it may be a mime type like\n// application/json.\nfunc (p *Publish) SetContentType(v string) { p.contentType = wstring(v) }\nfunc (p *Publish) ContentType() string     { return string(p.contentType) }\n\nfunc (p *Publish) SetPayload(v []byte) { p.payload = rawdata(v) }\nfunc (p *Publish) Payload() []byte     { return []byte(p.payload) }\n\n// end settings\n// ----------------------------------------\n\nfunc (p *Publish) WriteTo(w io.Writer) (int64, error) {\n\tb := make([]byte, p.fill(_LEN, 0))\n\tp.fill(b, 0)\n\tn, err := w.Write(b)\n\treturn int64(n), err\n}\n\nfunc (p *Publish) width() int {\n\treturn p.fill(_LEN, 0)\n}\n\nfunc (p *Publish) fill(b []byte, i int) int {\n\tremainingLen := vbint(p.variableHeader(_LEN, 0))\n\n\tif len(p.payload) > 0 {\n\t\tremainingLen += vbint(p.payload.fill(_LEN, 0))\n\t}\n\n\ti += p.fixed.fill(b, i)      // firstByte header\n\ti += remainingLen.fill(b, i) // remaining length\n\ti += p.variableHeader(b, i)  // variable header\n\tif len(p.payload) > 0 {\n\t\ti += p.payload.fill(b, i) // payload\n\t}\n\n\treturn i\n}\nfunc (p *Publish) variableHeader(b []byte, i int) int {\n\tn := i\n\n\ti += p.topicName.fill(b, i)\n\tif v := p.QoS(); v == 1 || v == 2 {\n\t\ti += p.packetID.fill(b, i)\n\t}\n\ti += vbint(p.properties(_LEN, 0)).fill(b, i) // Properties len\n\ti += p.properties(b, i)                      // Properties\n\n\treturn i - n\n}\n\nfunc (p *Publish) properties(b []byte, i int) int {\n\tn := i\n\ti += p.payloadFormat.fillProp(b, i, PayloadFormatIndicator)\n\ti += p.messageExpiryInterval.fillProp(b, i, MessageExpiryInterval)\n\ti += p.topicAlias.fillProp(b, i, TopicAlias)\n\ti += p.responseTopic.fillProp(b, i, ResponseTopic)\n\ti += p.correlationData.fillProp(b, i, CorrelationData)\n\ti += p.contentType.fillProp(b, i, ContentType)\n\n\ti += p.UserProperties.properties(b, i)\n\tfor j, _ := range p.subscriptionIDs {\n\t\ti += vbint(p.subscriptionIDs[j]).fillProp(b, i, SubscriptionID)\n\t}\n\treturn i - n\n}\n\nfunc (p *Publish) UnmarshalBinary(data []byte) error {\n\tbuf := &buffer{\n\t\tdata:              data,\n\t\taddSubscriptionID: p.AddSubscriptionID,", "// AddSubscriptionID adds the identifier of a matching subscription.\n// An identifier that is already present is not added again.\nfunc (p *Publish) AddSubscriptionID(v uint32) {\n\tfor _, id := range p.subscriptionIDs {\n\t\tif id == v {\n\t\t\treturn\n\t\t}\n\t}\n\tp.appendSubscriptionID(v)\n}\n\n// appendSubscriptionID is used when decoding, what is on the wire is\n// kept as is.\nfunc (p *Publish) appendSubscriptionID(v uint32) {\n\tp.subscriptionIDs = append(p.subscriptionIDs, v)\n}\n\nfunc (p *Publish) SubscriptionIDs() []uint32 {\n\treturn p.subscriptionIDs\n}\n\n// The value of the Content Type is defined by the sending and\n// receiving application, e.g. it may be a mime type like\n// application/json.\nfunc (p *Publish) SetContentType(v string) { p.contentType = wstring(v) }\nfunc (p *Publish) ContentType() string     { return string(p.contentType) }\n\nfunc (p *Publish) SetPayload(v []byte) { p.payload = rawdata(v) }\nfunc (p *Publish) Payload() []byte     { return []byte(p.payload) }\n\n// end settings\n// ----------------------------------------\n\nfunc (p *Publish) WriteTo(w io.Writer) (int64, error) {\n\tb := make([]byte, p.fill(_LEN, 0))\n\tp.fill(b, 0)\n\tn, err := w.Write(b)\n\treturn int64(n), err\n}\n\nfunc (p *Publish) width() int {\n\treturn p.fill(_LEN, 0)\n}\n\nfunc (p *Publish) fill(b []byte, i int) int {\n\tremainingLen := vbint(p.variableHeader(_LEN, 0))\n\n\tif len(p.payload) > 0 {\n\t\tremainingLen += vbint(p.payload.fill(_LEN, 0))\n\t}\n\n\ti += p.fixed.fill(b, i)      // firstByte header\n\ti += remainingLen.fill(b, i) // remaining length\n\ti += p.variableHeader(b, i)  // variable header\n\tif len(p.payload) > 0 {\n\t\ti += p.payload.fill(b, i) // payload\n\t}\n\n\treturn i\n}\nfunc (p *Publish) variableHeader(b []byte, i int) int {\n\tn := i\n\n\ti += p.topicName.fill(b, i)\n\tif v := p.QoS(); v == 1 || v == 2 {\n\t\ti += p.packetID.fill(b, i)\n\t}\n\ti += vbint(p.properties(_LEN, 0)).fill(b, i) // Properties len\n\ti += p.properties(b, i)                      // Properties\n\n\treturn i - n\n}\n\nfunc (p *Publish) properties(b []byte, i int) int {\n\tn := i\n\ti += p.payloadFormat.fillProp(b, i, PayloadFormatIndicator)\n\ti += p.messageExpiryInterval.fillProp(b, i, MessageExpiryInterval)\n\ti += p.topicAlias.fillProp(b, i, TopicAlias)\n\ti += p.responseTopic.fillProp(b, i, ResponseTopic)\n\ti += p.correlationData.fillProp(b, i, CorrelationData)\n\ti += p.contentType.fillProp(b, i, ContentType)\n\n\ti += p.UserProperties.properties(b, i)\n\tfor j, _ := range p.subscriptionIDs {\n\t\ti += vbint(p.subscriptionIDs[j]).fillProp(b, i, SubscriptionID)\n\t}\n\treturn i - n\n}\n\nfunc (p *Publish) UnmarshalBinary(data []byte) error {\n\tbuf := &buffer{\n\t\tdata:              data,\n\t\taddSubscriptionID: p.appendSubscriptionID,"}}},
+		{Name: "adder-ignores-the-empty-string", Rule: "R12.5", Where: "AddFilter", Edits: []Edit{{"unsubscribe.go", "func (p *Unsubscribe) AddFilter(filter string) {", "// AddFilter adds a topic filter to unsubscribe from. Topic filters\n// must be at least one character long [MQTT-4.7.3-1], empty ones are\n// ignored.\nfunc (p *Unsubscribe) AddFilter(filter string) {\n\tif len(filter) == 0 {\n\t\treturn\n\t}"}}},
 		{Name: "session-present-ignores-argument", Rule: "R12.1", Where: "(*ConnAck).SetSessionPresent", Edits: []Edit{{"connack.go", "func (p *ConnAck) SetSessionPresent(v bool) { p.flags.toggle(1, v) }", "func (p *ConnAck) SetSessionPresent(v bool) { p.flags.toggle(1, true) }"}}},
 		{Name: "setretain-clears-dup", Rule: "R12.2", Where: "(*Publish).SetRetain", Edits: []Edit{{"publish.go", "func (p *Publish) SetRetain(v bool) { p.fixed.toggle(RETAIN, v) }", "func (p *Publish) SetRetain(v bool) {\n\tp.fixed &= bits(^DUP)\n\tp.fixed.toggle(RETAIN, v)\n}"}}},
 		{Name: "topicaliasmax-stored-in-receivemax", Rule: "R12.1", Where: "(*Connect).SetTopicAliasMax", Edits: []Edit{{"connect.go", "func (p *Connect) SetTopicAliasMax(v uint16) {\n\tp.topicAliasMax = wuint16(v)\n}", "func (p *Connect) SetTopicAliasMax(v uint16) {\n\tp.receiveMax = wuint16(v)\n}"}}},
